@@ -26,7 +26,29 @@ func main() {
 	callers := flag.String("callers", "", "debug: print the static callers of an object spec (comma separated)")
 	writers := flag.String("writers", "", "debug: print the stores to a field spec (comma separated)")
 	atoms := flag.String("atoms", "", "debug: print the normalised condition atoms and lock keys of function specs (comma separated)")
+	mutators := flag.String("mutators", "", "debug: print the mutation sites of function specs (comma separated) using the mutator summary of their package")
 	flag.Parse()
+	if *mutators != "" {
+		prog, err := an.Load(*repo)
+		if err != nil {
+			fmt.Println(err)
+			os.Exit(2)
+		}
+		mut := prog.Mutators("lib/util/lifted/influx/meta")
+		for _, sp := range strings.Split(*mutators, ",") {
+			src := prog.FuncSpec(sp)
+			if src == nil {
+				fmt.Println("??", sp)
+				continue
+			}
+			f := prog.Fn(src)
+			fmt.Println("==", sp, "mutates inputs:", mut[src.Obj])
+			for _, n := range f.MutationSites(mut) {
+				fmt.Println("   ", prog.Pos(n.Pos()))
+			}
+		}
+		return
+	}
 	if *atoms != "" {
 		prog, err := an.Load(*repo)
 		if err != nil {
